@@ -48,8 +48,13 @@ def attempts_obs(obs, helper):
             if c and k and a["served"] and c.get("text") == a["served"][-1]:
                 fo = flowgrid.files_obs(helper, c.get("text"), k.get("text"))
                 installed = fo["cert_parses"] and fo["leaf_key"] is not None and fo["leaf_key"] == fo["key_file_key"]
+        # hooks that ran before the report and did not end with status 0 (the recorder hooks are
+        # configured without allow_failure)
+        hook_failed = any(h.get("exit", 0) != 0 and h["name"] != "rec-post-operation" and
+                          (rec is None or h["t"] < rec["t"]) for h in a.get("hooks", []))
         out.append({"start_ms": a["start"] // 10 ** 6, "end_ms": (rec["t"] if rec else a["start"]) // 10 ** 6,
                     "post_op_count": len(posts), "reported_success": args.get("is_success") == "true",
+                    "hook_failed": hook_failed,
                     "installed": installed, "status": args.get("status"),
                     "next_start_ms": (a["next_start"] // 10 ** 6) if a["next_start"] is not None else None})
     return out
@@ -62,10 +67,14 @@ def part_single(ctx, helper, root):
     scs = [dict(s, idx=i) for i, s in enumerate(g)]
     # hook faults: challenge hook / post-operation hook / file hooks exiting non-zero
     hookscs = []
+    # (a negative code = the hook kills itself with that signal: it has no exit status at all)
     for j, (htype, code) in enumerate([("challenge-http-01", 1), ("challenge-dns-01", 3), ("post-operation", 1),
-                                       ("file-pre-create", 1), ("file-post-create", 2), ("challenge-http-01-clean", 1)]):
+                                       ("file-pre-create", 1), ("file-post-create", 2), ("challenge-http-01-clean", 1),
+                                       ("challenge-http-01", -9), ("file-post-create", -9), ("file-pre-create", -15),
+                                       ("challenge-http-01-clean", -9), ("post-operation", -9),
+                                       ("challenge-http-01", 255), ("file-post-edit", -9)]):
         hookscs.append({"idx": 10000 + j, "pos": ["none", 0], "fault": "hook:%s=%d" % (htype, code),
-                        "answer": {"status": 200}, "times": 1, "pair": False, "kp_reuse": False,
+                        "answer": {"status": 200}, "times": 1, "pair": htype.endswith("-edit"), "kp_reuse": False,
                         "hook_exits": {htype: code}})
 
     # two faults in one attempt: the issuance fails AND a hook of the reporting path fails too
@@ -123,6 +132,9 @@ def part_single(ctx, helper, root):
             why = ("%d post-operation records" % a["post_op_count"]) if a["post_op_count"] != 1 else \
                 ("is_success=true although the served certificate and its key are not installed") \
                 if (a["reported_success"] and not a["installed"]) else \
+                ("is_success=true although a hook of the attempt did not end with status 0 (%s)" % [
+                    (h["name"], h.get("exit")) for h in obs.get("hooks", []) if h.get("exit", 0) != 0]) \
+                if (a["reported_success"] and a.get("hook_failed")) else \
                 ("next attempt %d ms after a failed one" % (a["next_start_ms"] - a["end_ms"])) if not v["pause_ok"][bad] \
                 else "attempt end before start"
             ctx.violation("fault %s at %s: attempt %d: %s" % (sc["fault"], flowgrid.pos_name(sc["pos"]), bad + 1, why), robj)
